@@ -97,7 +97,7 @@ def corpus_cases():
 def gen_cases(ctx):
     rng = ctx.rng
     cases = corpus_cases()
-    plan = [("mixed", 70), ("failing", 50), ("healthy", 25), ("nonmono", 15)]
+    plan = [("mixed", 55), ("failing", 40), ("healthy", 20), ("nonmono", 12)]
     if ctx.thorough:
         plan = [(p, n * 10) for p, n in plan]
     for profile, n in plan:
@@ -324,7 +324,7 @@ def run(ctx):
         "distinct_nontrivial": len(nontrivial),
         "rule": "a history is non-trivial when it walks closed->open, open->half-open and a half-open exit (to closed or back to open); distinct by (config, intents)",
         "event_histogram": hist, "transitions_seen": trans,
-        "burst_rounds": len(bursts), "burst_max_concurrent_over_cap": max([b["MaxConcurrent"] - b["Cap"] for b in bursts] or [None]),
+        "burst_rounds": len(bursts), "churn_probe_admissions": sum(b["Admitted"] for b in bursts if b["Phase"] == "half-open-churn"), "burst_max_concurrent_over_cap": max([b["MaxConcurrent"] - b["Cap"] for b in bursts] or [None]),
         "model_mismatching_histories": mism,
         "samples": [{k: v for k, v in c.items() if k != "intents"} | {"intents": c["intents"][:6]} for c in cases[:2] + cases[len(cases) // 2: len(cases) // 2 + 2]],
         "theorems": THEOREMS,
@@ -335,7 +335,7 @@ THEOREMS = ["C47_window_totals", "C47_window_alignment", "C47_state_machine", "C
             "C47_sem_bounded", "C47_sem_counts_probes", "C47_admitted_without_token_only_when_closed", "C47_concurrent_probes_bounded"]
 
 META = {
-    "ready": False,
+    "ready": True,
     "category": "proof",
     "technique": "Rocq proof over an executable model of the breaker + differential execution against the real breaker through Execute with a scripted clock + concurrent probe bursts",
     "text": "The bucket ring (advance/hard reset/add/totals), tryAcquire, record, transitionTo and the half-open semaphore are modelled as written; proved for all histories: the ring's totals are the outcomes since the last reset within the last window at bucket granularity; the state follows the state-machine table (closed->open exactly when total>=minRequests and the rate is reached; open rejects everything before openUntil; half-open closes on enough good samples, reopens on a reached rate); the semaphore never exceeds halfOpenMaxCalls and equals the probes in flight; for any number of callers interleaved at the breaker's atomic operations at most cap probes run concurrently.",
